@@ -1,7 +1,8 @@
 """C11 — bounded stand-in on temporary trees (runtime/h_fs.py)."""
 ID = "C11"
 LEVEL = "exploration"
-FUNCTIONS = []
+FUNCTIONS = ["codelimit.common.Scanner:scan_path"]
+BOUNDED_SKIP = ["codelimit.common.Scanner:scan_path"]
 TRUSTED = ["the file system of the sandbox; Pygments; pathspec"]
 ASSUMPTIONS = []
 BOUND = "generated trees over 12 directory names (hidden, built-in excluded, ordinary, nested) x 9 file names (supported, unsupported, hidden, no extension) x 9 exclusion lists of the unambiguous gitignore classes via option / .gitignore / both x root given as absolute, relative, through '..' (quick 87 cases, thorough ~500)"
